@@ -729,6 +729,13 @@ def h5_copy_from_to(
         node = target_group.create_dataset(target_path, data=source_node[()])
         copy_attrs(source_node, node)  # copy dataset attributes
     else:
+        # list the source first, as the target could be located inside of it
+        src_children = []
+        if shallow:  # only immediate children
+            src_children = list(source_node.items())
+        else:  # recursive copy
+            source_node.visititems(lambda name, child: src_children.append((name, child)))
+
         trg_root = target_group.create_group(target_path)
         copy_attrs(source_node, trg_root)  # copy source node attributes
 
@@ -740,8 +747,5 @@ def h5_copy_from_to(
                 trg_root.create_group(name)
             copy_attrs(src_child, trg_root[name])
 
-        if shallow:  # only immediate children
-            for name, src_child in source_node.items():
-                copy_children(name, src_child)
-        else:  # recursive copy
-            source_node.visititems(copy_children)
+        for name, src_child in src_children:
+            copy_children(name, src_child)
